@@ -100,6 +100,57 @@ def last_more(s):
     return lo if lo == hi else None
 
 
+def upload_anchor(prog):
+    """the function the Block1 (upload) rules are stated on: the one that splices upload blocks into the per-key
+    buffer - or, when it has been split up (buffer handling moved into a state method, negotiation hoisted into the
+    entry point), the nearest caller that still has the request in hand and reaches the size negotiation; in the
+    last resort the public entry point intercept_request itself.
+    -> (body, index of the request argument, index of the budget argument or None [= the handler's configured budget])"""
+    cands = fns_calling(prog, "block_handler::extending_splice")
+    if len(cands) != 1:
+        return None
+    negs = find_negotiate(prog)
+    neg_id = negs[0]["id"] if len(negs) == 1 else None
+    ir = find_body(prog, HANDLER + "intercept_request")
+    from harness import reachable
+
+    def shape(b):
+        req = bud = None
+        for i in range(b["arg_count"]):
+            ts = prog.types[b["locals"][i + 1]["ty"]]["s"]
+            if "request::CoapRequest" in ts:
+                req = i
+            if ts == "usize":
+                bud = i
+        return req, bud
+    cur = cands[0]
+    for _ in range(4):
+        req, bud = shape(cur)
+        reaches_neg = neg_id is None or any(x["id"] == neg_id for x in reachable(prog, cur))
+        if req is not None and reaches_neg and (bud is not None or (ir is not None and cur["id"] == ir["id"])):
+            return cur, req, bud
+        callers = [b for b in prog.bodies.values() if not b.get("promoted") and b["path"].startswith("block_handler::") and "::tests::" not in b["id"]
+                   and b.get("kind") != "Closure" and b["id"] != cur["id"]
+                   and any(bb["term"]["k"] == "call" and not bb["cleanup"] and (bb["term"].get("resolved") or {}).get("id") == cur["id"] for bb in b["blocks"])]
+        if len(callers) != 1:
+            break
+        cur = callers[0]
+    if ir is not None:
+        req, bud = shape(ir)
+        if req is not None:
+            return ir, req, None
+    return None
+
+
+def config_budget_place(prog, tr):
+    hi = idx(prog, "block_handler::BlockHandler", "config")
+    ci = idx(prog, "block_handler::BlockHandlerConfig", "max_total_message_size")
+    a0 = tr.args[0] if tr.args else None
+    if isinstance(a0, RefV) and hi is not None and ci is not None:
+        return a0.place.extend(("f", hi), ("f", ci))
+    return None
+
+
 class Trace:
     """runs one handler entry point and records, per path (ghost marks) and
     globally (lists), the events the structure rules talk about"""
@@ -118,7 +169,7 @@ class Trace:
         self.neg_id = negs[0]["id"] if len(negs) == 1 else None
         I.type_invariants[BV] = bv_invariant
         I.no_join_bodies.add(self.body["id"])
-        I.no_join_prefixes = ("block_handler::BlockHandler",)
+        I.no_join_prefixes = ("block_handler::BlockHandler", "block_handler::BlockState")
         I.K = 600
         I.cheap_plain_joins = True      # merges of return / overflow states keep common facts only (no relational templates)
         I.extra_models["packet::Packet::to_bytes"] = model_to_bytes
@@ -192,7 +243,7 @@ class Trace:
 
         def value_hook(I_, ctx, s, v):
             if isinstance(v, StructV) and len(v.fields) == 3 and bv_more is not None and isinstance(v.fields[bv_more], IntV) \
-                    and v.fields[bv_more].ty == (1, False) and ctx.body["path"].startswith("block_handler::BlockHandler"):
+                    and v.fields[bv_more].ty == (1, False) and ctx.body["path"].startswith("block_handler::"):
                 # the more flag of the block value built last, as a value (it may be a constant on this path, or a
                 # boolean computed from lengths that a later branch decides)
                 s.cells[("gh", "last_more")] = v.fields[bv_more]
@@ -221,22 +272,22 @@ class Trace:
             elif tr.neg_id is not None and cbody is not None and cbody.get("id") == tr.neg_id:
                 tr.events.append(("negotiate", call.args, s.copy(), call.site))
                 s.ghost[("inj", "negotiated")] = True
-            elif p == "core::cmp::min" and call.ctx.body["path"].startswith("block_handler::"):
+            elif p in ("core::cmp::min", "core::cmp::Ord::min") and call.ctx.body["path"].startswith("block_handler::"):
                 tr.events.append(("min", call.args, s.copy(), call.site))
                 s.ghost["min_args"] = tuple(call.args)
-            elif p == BV + "::new" and call.ctx.body["path"].startswith("block_handler::BlockHandler"):
+            elif p == BV + "::new" and call.ctx.body["path"].startswith("block_handler::"):
                 tr.events.append(("bv-new", call.args, s.copy(), call.site, s.ghost.get("min_args")))
-            elif p.endswith("::checked_sub") and call.ctx.body["path"].startswith("block_handler::BlockHandler"):
+            elif p.endswith("::checked_sub") and call.ctx.body["path"].startswith("block_handler::"):
                 tr.events.append(("checked_sub", call.args, s.copy(), call.site))
             elif p.startswith("alloc::vec::Vec::<T, A>::") and call.name in ("clear", "drain", "truncate", "resize", "retain", "pop", "remove", "swap_remove", "split_off", "set_len") \
-                    and call.ctx.body["path"].startswith("block_handler::BlockHandler") and call.args and isinstance(call.args[0], RefV) \
+                    and call.ctx.body["path"].startswith("block_handler::") and call.args and isinstance(call.args[0], RefV) \
                     and is_state_place(call.args[0].place, "buffer"):
                 # the per-key upload buffer, still in the state, is cut or emptied by the handler itself
                 tr.events.append(("buffer-shrink", call.name, s.copy(), call.site))
             elif p == "error::HandlingError::bad_request":
                 s.ghost[("inj", "bad_request")] = True
                 tr.events.append(("bad_request", s.copy(), call.site))
-            elif p in ("core::mem::take", "core::option::Option::<T>::take") and call.ctx.body["path"].startswith("block_handler::BlockHandler"):
+            elif p in ("core::mem::take", "core::option::Option::<T>::take") and call.ctx.body["path"].startswith("block_handler::"):
                 # mem::take(&mut opt) and opt.take() both leave None behind and hand out the old value
                 a = call.args[0]
                 if isinstance(a, RefV) and is_state_place(a.place, "buffer") and len(a.place.proj) == 1:
